@@ -354,7 +354,7 @@ Section CyclicLoop.
 
   Lemma rot_ix_ileave d R b (B : lmat) :
     length B = b -> (forall r, In r B -> length r = d * R) ->
-    rot_ix Op d (R * b) (ileave b (d * R) B) = ileave (b * d) R (concat (map (fun Bk => chunks R d Bk) B)).
+    rot_ix Op d (R * b) (ileave b (d * R) B) = ileave (b * d) R (concat (map (fun Bk : list F => chunks R d Bk) B)).
   Proof.
     intros HB Hrows. unfold rot_ix, ileave at 2.
     replace (R * b * d) with (R * (b * d)) by ring.
@@ -410,15 +410,15 @@ Section CyclicLoop.
       destruct oM as [M|]; cbn [chain_ix mode_products]; fold R.
       + rewrite tdot_ix_ileave by assumption. apply Hfin.
         * intros. apply chunks_length.
-        * intros Bk r _ Hr. apply (chunks_rows_In R d _ r); [apply mode0_length|exact Hr].
+        * intros Bk r _ Hr. apply (chunks_rows_In R d (mode0 Op d R M Bk) r); [apply mode0_length|exact Hr].
       + rewrite rot_ix_ileave by assumption. apply Hfin.
         * intros. apply chunks_length.
-        * intros Bk r HBk Hr. apply (chunks_rows_In R d _ r); [apply Hrows; exact HBk|exact Hr].
+        * intros Bk r HBk Hr. apply (chunks_rows_In R d Bk r); [apply Hrows; exact HBk|exact Hr].
   Qed.
 
   Lemma ileave_one P (x : list F) : length x = P -> ileave 1 P [x] = x.
   Proof.
-    intros H. unfold ileave. symmetry. apply eq_tab; [lia|].
+    intros H. unfold ileave. symmetry. apply (eq_tab Op); [lia|].
     intros i Hi. rewrite Nat.mod_1_r, Nat.div_1_r. reflexivity.
   Qed.
 
@@ -447,3 +447,190 @@ Section CyclicLoop.
     - intros r [<-|[]]. exact Hx.
   Qed.
 End CyclicLoop.
+
+(* ====================================================================== Part 4: real numbers - linearity and the inverse rotation *)
+Local Open Scope R_scope.
+
+Section RealRotation.
+  Variable rnd : R -> R.
+  Local Notation RO := (R_ops rnd).
+  Local Notation rsum := (sumn RO).
+  Local Notation lmat := (list (list R)).
+
+  Lemma vnth_mode0_R d P (M : lmat) y j r : (j < d)%nat -> (r < P)%nat ->
+    vnth RO (mode0 RO d P M y) (j * P + r) = rsum d (fun i => vnth RO y (i * P + r) * mnth RO M i j).
+  Proof. exact (vnth_mode0 RO d P M y j r). Qed.
+
+  Lemma delta_R i j : delta RO i j = if Nat.eqb i j then 1 else 0.
+  Proof. reflexivity. Qed.
+
+  (* linear combinations of lists of length [len] *)
+  Definition lc (len n : nat) (c : nat -> R) (ys : nat -> list R) : list R :=
+    tab len (fun r => rsum n (fun i => c i * vnth RO (ys i) r)).
+  Definition linear (len : nat) (f : list R -> list R) : Prop :=
+    forall n c ys, (forall i, (i < n)%nat -> length (ys i) = len) -> f (lc len n c ys) = lc len n c (fun i => f (ys i)).
+
+  Lemma lc_length len n c ys : length (lc len n c ys) = len.
+  Proof. apply tab_length. Qed.
+  Lemma vnth_lc len n c ys r : (r < len)%nat -> vnth RO (lc len n c ys) r = rsum n (fun i => c i * vnth RO (ys i) r).
+  Proof. intros H. unfold lc, vnth at 1. rewrite nth_tab by exact H. reflexivity. Qed.
+  Lemma lc_ext len n c ys ys' : (forall i, (i < n)%nat -> ys i = ys' i) -> lc len n c ys = lc len n c ys'.
+  Proof. intros H. unfold lc. apply tab_ext. intros r _. apply sumn_ext. intros i Hi. rewrite H by exact Hi. reflexivity. Qed.
+
+  Lemma mode_products_length : forall ds Ms (x : list R),
+    length Ms = length ds -> length x = numel ds -> length (mode_products RO ds Ms x) = numel ds.
+  Proof.
+    induction ds as [|d ds IH]; intros Ms x HMs Hx; [exact Hx|].
+    destruct Ms as [|oM Ms]; [discriminate|]. cbn [mode_products]. change (numel (d :: ds)) with (d * numel ds)%nat in *.
+    rewrite (concat_uniform_length _ (numel ds)).
+    - rewrite map_length, chunks_length. reflexivity.
+    - intros r Hr. apply in_map_iff in Hr. destruct Hr as (row & <- & Hrow).
+      apply IH; [cbn in HMs; lia|].
+      refine (chunks_rows_In (numel ds) d _ row _ Hrow).
+      destruct oM; [apply mode0_length|exact Hx].
+  Qed.
+
+  (* the mode-0 product of a linear combination *)
+  Lemma mode0_lc d P (M : lmat) n c ys : (forall i, (i < n)%nat -> length (ys i) = (d * P)%nat) ->
+    mode0 RO d P M (lc (d * P) n c ys) = lc (d * P) n c (fun k => mode0 RO d P M (ys k)).
+  Proof.
+    intros Hys. apply (eq_tab RO); [apply mode0_length|].
+    intros p Hp. destruct (index_split d P p Hp) as (E & Hj & Hr).
+    set (j := (p / P)%nat) in *. set (r := (p mod P)%nat) in *. clearbody j r. subst p.
+    rewrite vnth_mode0_R by assumption.
+    rewrite (sumn_ext RO d _ (fun i => rsum n (fun k => c k * (vnth RO (ys k) (i * P + r) * mnth RO M i j)))).
+    2:{ intros i Hi. rewrite vnth_lc by (apply lt_mul_add; assumption). rewrite <- rsum_mult_r.
+        apply sumn_ext. intros k _. ring. }
+    rewrite rsum_swap. apply sumn_ext. intros k Hk. rewrite vnth_mode0_R by assumption.
+    rewrite <- rsum_mult_l. reflexivity.
+  Qed.
+
+  Lemma chunks_lc d P n c zs a : (a < d)%nat ->
+    nth a (chunks P d (lc (d * P) n c zs)) [] = lc P n c (fun k => nth a (chunks P d (zs k)) []).
+  Proof.
+    intros Ha. apply (eq_tab RO); [apply chunks_row_length; [apply lc_length|exact Ha]|].
+    intros b Hb. change (vnth RO (nth a (chunks P d (lc (d * P) n c zs)) []) b) with (mnth RO (chunks P d (lc (d * P) n c zs)) a b).
+    rewrite mnth_chunks by assumption. rewrite vnth_lc by (apply lt_mul_add; assumption).
+    apply sumn_ext. intros k _. f_equal.
+    change (vnth RO (nth a (chunks P d (zs k)) []) b) with (mnth RO (chunks P d (zs k)) a b).
+    rewrite mnth_chunks by assumption. reflexivity.
+  Qed.
+
+  Lemma mode_products_linear : forall ds Ms, length Ms = length ds -> linear (numel ds) (mode_products RO ds Ms).
+  Proof.
+    induction ds as [|d ds IH]; intros Ms HMs n c ys Hys; [reflexivity|].
+    destruct Ms as [|oM Ms]; [discriminate|]. assert (HMs' : length Ms = length ds) by (cbn in HMs; lia).
+    change (numel (d :: ds)) with (d * numel ds)%nat in *. set (P := numel ds) in *.
+    set (g := mode_products RO ds Ms).
+    assert (Hg : forall y, length y = P -> length (g y) = P) by (intros; apply mode_products_length; assumption).
+    (* step B: slices *)
+    assert (HB : forall zs, (forall i, (i < n)%nat -> length (zs i) = (d * P)%nat) ->
+                 concat (map g (chunks P d (lc (d * P) n c zs))) = lc (d * P) n c (fun k => concat (map g (chunks P d (zs k))))).
+    { intros zs Hzs. apply (concat_eq_tab RO _ d P).
+      - rewrite map_length. apply chunks_length.
+      - intros a Ha. rewrite (nth_map_lt _ _ a []) by (rewrite chunks_length; exact Ha).
+        apply Hg. apply chunks_row_length; [apply lc_length|exact Ha].
+      - intros a b Ha Hb. unfold mnth. rewrite (nth_map_lt _ _ a []) by (rewrite chunks_length; exact Ha).
+        rewrite chunks_lc by exact Ha. unfold g at 1. rewrite (IH Ms HMs' n c).
+        2:{ intros i Hi. apply chunks_row_length; [apply Hzs; exact Hi|exact Ha]. }
+        change (nth b ?l (f0 RO)) with (vnth RO l b). rewrite vnth_lc by exact Hb.
+        apply sumn_ext. intros k Hk. f_equal. unfold vnth.
+        rewrite (nth_concat_uniform _ P a b).
+        + rewrite (nth_map_lt _ _ a []) by (rewrite chunks_length; exact Ha). reflexivity.
+        + intros r Hr. apply in_map_iff in Hr. destruct Hr as (row & <- & Hrow). apply Hg.
+          apply (chunks_rows_In P d (zs k) row); [apply Hzs; exact Hk|exact Hrow].
+        + rewrite map_length, chunks_length. exact Ha.
+        + exact Hb. }
+    cbn [mode_products]. fold P. fold g. destruct oM as [M|].
+    - rewrite mode0_lc by exact Hys. rewrite HB; [reflexivity|]. intros i Hi. apply mode0_length.
+    - apply HB. exact Hys.
+  Qed.
+
+  (* slices of a mode-0 product are linear combinations of the slices *)
+  Lemma mode0_row d P (M : lmat) y j : (j < d)%nat ->
+    nth j (chunks P d (mode0 RO d P M y)) [] = lc P d (fun i => mnth RO M i j) (fun i => nth i (chunks P d y) []).
+  Proof.
+    intros Hj. apply (eq_tab RO); [apply chunks_row_length; [apply mode0_length|exact Hj]|].
+    intros r Hr. change (vnth RO (nth j ?m []) r) with (mnth RO m j r).
+    rewrite mnth_chunks by assumption. rewrite vnth_mode0_R by assumption.
+    apply sumn_ext. intros i Hi.
+    change (vnth RO (nth i (chunks P d y) []) r) with (mnth RO (chunks P d y) i r).
+    rewrite mnth_chunks by assumption. ring.
+  Qed.
+
+  (* a mode-0 product commutes with a linear map applied to every slice *)
+  Lemma mode0_commutes d P (M : lmat) (g : list R -> list R) (Y : lmat) :
+    linear P g -> (forall y, length y = P -> length (g y) = P) ->
+    length Y = d -> (forall r, In r Y -> length r = P) ->
+    mode0 RO d P M (concat (map g Y)) = concat (map g (chunks P d (mode0 RO d P M (concat Y)))).
+  Proof.
+    intros Hlin Hlen HY Hrows.
+    assert (HgY : forall r, In r (map g Y) -> length r = P).
+    { intros r Hr. apply in_map_iff in Hr. destruct Hr as (y & <- & Hy). apply Hlen, Hrows, Hy. }
+    rewrite <- (concat_chunks RO P d (mode0 RO d P M (concat (map g Y)))) by apply mode0_length.
+    f_equal. apply (nth_ext _ _ [] []); [rewrite map_length, !chunks_length; reflexivity|].
+    rewrite chunks_length. intros j Hj.
+    rewrite (nth_map_lt _ _ j []) by (rewrite chunks_length; exact Hj).
+    rewrite !mode0_row by exact Hj.
+    rewrite Hlin.
+    2:{ intros i Hi. apply chunks_row_length; [|exact Hi]. rewrite (concat_uniform_length _ P Hrows), HY. reflexivity. }
+    apply lc_ext. intros i Hi.
+    rewrite (chunks_concat P d (map g Y)) by (try assumption; rewrite map_length; exact HY).
+    rewrite (chunks_concat P d Y) by assumption.
+    apply (nth_map_lt g Y i []). lia.
+  Qed.
+
+  (* M M' = I: the mode-0 product with M' undoes the one with M *)
+  Lemma mode0_inverse d P (M M' : lmat) y :
+    inverse_pair RO d M M' -> length y = (d * P)%nat -> mode0 RO d P M' (mode0 RO d P M y) = y.
+  Proof.
+    intros Hinv Hy. unfold inverse_pair in Hinv. change (fmul RO) with Rmult in Hinv.
+    symmetry. apply (eq_tab RO); [exact Hy|].
+    intros p Hp. destruct (index_split d P p Hp) as (E & Hj & Hr).
+    set (j := (p / P)%nat) in *. set (r := (p mod P)%nat) in *. clearbody j r. subst p.
+    symmetry. change (fmul RO) with Rmult.
+    rewrite (sumn_ext RO d _ (fun i => rsum d (fun k => vnth RO y (k * P + r) * (mnth RO M k i * mnth RO M' i j)))).
+    2:{ intros i Hi. rewrite vnth_mode0_R by assumption. rewrite <- rsum_mult_r. apply sumn_ext. intros k _. ring. }
+    rewrite rsum_swap.
+    rewrite (sumn_ext RO d _ (fun k => if Nat.eqb k j then vnth RO y (k * P + r) else 0)).
+    2:{ intros k Hk. rewrite rsum_mult_l. rewrite (Hinv k j Hk Hj), delta_R. destruct (Nat.eqb k j); ring. }
+    rewrite (rsum_delta_r rnd d j (fun k => vnth RO y (k * P + r))) by exact Hj. reflexivity.
+  Qed.
+
+  (* rotate_back_inverse on the reference semantics, every order *)
+  Theorem mode_products_inverse : forall ds Ms Ms' x,
+    back_pair RO ds Ms Ms' -> length x = numel ds ->
+    mode_products RO ds Ms' (mode_products RO ds Ms x) = x.
+  Proof.
+    induction ds as [|d ds IH]; intros Ms Ms' x Hbp Hx; [reflexivity|].
+    destruct Ms as [|oM Ms]; [destruct Ms'; contradiction|].
+    destruct Ms' as [|oM' Ms']; [destruct oM; contradiction|].
+    change (numel (d :: ds)) with (d * numel ds)%nat in *. set (P := numel ds) in *.
+    assert (Hlens : length Ms = length ds /\ length Ms' = length ds /\ back_pair RO ds Ms Ms').
+    { assert (G : forall ds Ms Ms', back_pair RO ds Ms Ms' -> length Ms = length ds /\ length Ms' = length ds).
+      { clear. induction ds as [|d ds IH]; intros [|[M|] Ms] [|[M'|] Ms'] H; cbn in H; try contradiction; cbn.
+        - split; reflexivity.
+        - destruct H as [_ H]. destruct (IH _ _ H). split; congruence.
+        - destruct (IH _ _ H). split; congruence. }
+      destruct oM, oM'; cbn in Hbp; try contradiction; [destruct Hbp as [_ Hbp]|]; destruct (G _ _ _ Hbp); auto. }
+    destruct Hlens as (HMs & HMs' & Hbp').
+    set (g := mode_products RO ds Ms). set (g' := mode_products RO ds Ms').
+    assert (Hg : forall y, length y = P -> length (g y) = P) by (intros; apply mode_products_length; assumption).
+    assert (Hfin : forall z, length z = (d * P)%nat -> concat (map g' (chunks P d (concat (map g (chunks P d z))))) = z).
+    { intros z Hz. rewrite chunks_concat.
+      - rewrite map_map. rewrite (map_ext_in _ (fun y => y)), map_id; [apply (concat_chunks RO); exact Hz|].
+        intros y Hy. apply (IH Ms Ms' y Hbp'). apply (chunks_rows_In P d z y Hz Hy).
+      - rewrite map_length. apply chunks_length.
+      - intros r Hr. apply in_map_iff in Hr. destruct Hr as (y & <- & Hy). apply Hg. apply (chunks_rows_In P d z y Hz Hy). }
+    cbn [mode_products]. fold P. fold g. fold g'.
+    destruct oM as [M|], oM' as [M'|]; cbn in Hbp; try contradiction.
+    - destruct Hbp as [Hinv _].
+      rewrite (mode0_commutes d P M' g (chunks P d (mode0 RO d P M x))).
+      + rewrite (concat_chunks RO) by apply mode0_length. rewrite mode0_inverse by assumption. apply Hfin. exact Hx.
+      + apply mode_products_linear. exact HMs.
+      + exact Hg.
+      + apply chunks_length.
+      + intros r Hr. apply (chunks_rows_In P d (mode0 RO d P M x) r); [apply mode0_length|exact Hr].
+    - apply Hfin. exact Hx.
+  Qed.
+End RealRotation.
